@@ -78,11 +78,12 @@ namespace vh {
     int last_index   = -1;
     std::vector<double> bbplan;    // for draws made directly inside decay0_bb
     std::vector<double> tplan;     // outcome deviate of the i-th nuclear-transition primitive called by a scheme
-    size_t tpos = 0;
+    std::vector<double> betaplan;  // draws made directly inside a beta-spectrum primitive (the rejection trials: E-deviate, f-deviate, ...)
+    size_t tpos = 0, epos = 0;
     size_t ppos = 0, bpos = 0;
     stream fallback;
     std::vector<double> log;       // every deviate served, in order
-    std::vector<char> level;       // 's' scheme-level, 't' transition outcome, 'b' bb-level, 'i' inside a primitive / elsewhere
+    std::vector<char> level;       // 's' scheme-level, 't' transition outcome, 'b' bb-level, 'e' planned beta trial, 'i' inside a primitive / elsewhere
     size_t ndraws = 0;
     long pin_pos = -1;
     double pin_val = 0.5;
@@ -120,6 +121,16 @@ namespace vh {
           }
         }
         tpos++;
+      } else if (rec && !betaplan.empty() && !rec->stack.empty() && rec->stack.back().compare(0, 4, "beta") == 0) {
+        lv = 'e';
+        if (epos < betaplan.size()) {
+          double v = betaplan[epos];
+          if (v == v) {
+            u       = v;
+            planned = true;
+          }
+        }
+        epos++;
       } else if (rec && rec->at_level("bb")) {
         lv = 'b';
         if (bpos < bbplan.size()) {
